@@ -314,6 +314,20 @@ func (e *Exec) feasible(c *smt.Term) bool {
 	return a.Res != smt.Unsat
 }
 
+// feasibleStrict queries the solver even in lazy mode (used where "maybe" would make the
+// path inconclusive).
+func (e *Exec) feasibleStrict(c *smt.Term) bool {
+	if c.IsTrue() {
+		return true
+	}
+	if c.IsFalse() {
+		return false
+	}
+	e.feasQ++
+	a := e.Solver.Check(e.script(c), e.Cfg.FeasTimeoutMs)
+	return a.Res != smt.Unsat
+}
+
 // choose takes the next decision among n options. check(i) decides feasibility of option i
 // (nil => always feasible). The first feasible option is taken; the others are queued
 // unchecked (the worker that picks one up checks it when it consumes the decision).
@@ -390,6 +404,19 @@ func (e *Exec) forkBool(c *smt.Term) bool {
 		e.unsupported("fork under merge guard")
 	}
 	return e.forkOn(c, smt.Not(c))
+}
+
+// allocCheck: an allocation sized by a symbolic count must stay within AllocLimit. A witness of
+// moderate size (replayable without exhausting memory) is preferred.
+func (e *Exec) allocCheck(label string, n *smt.Term) {
+	lim := smt.BVC(64, uint64(e.Cfg.AllocLimit))
+	ok := smt.BvCmp(smt.OBvSle, n, lim)
+	moderate := smt.BvCmp(smt.OBvSle, n, smt.BVC(64, 1<<24))
+	if e.feasibleStrict(smt.And(smt.Not(ok), moderate)) {
+		e.check("assert", label, smt.Or(ok, smt.Not(moderate)))
+		return
+	}
+	e.check("assert", label, ok)
 }
 
 // concretizeMax: case split on a value already known to lie in 0..max.
@@ -1187,7 +1214,7 @@ func (e *Exec) instr(fr *Frame, ins ssa.Instruction) {
 			}
 		}
 		if lt := e.toIdx64(e.term(fr, x.Len), x.Len.Type()); !lt.IsConst() && e.Cfg.AllocLimit > 0 {
-			e.check("assert", "alloc:slice-length@"+fr.fn.Name(), smt.BvCmp(smt.OBvSle, lt, smt.BVC(64, uint64(e.Cfg.AllocLimit))))
+			e.allocCheck("alloc:slice-length@"+fr.fn.Name(), lt)
 			e.assume(smt.BvCmp(smt.OBvSle, lt, smt.BVC(64, uint64(e.Cfg.AllocLimit))))
 		}
 		n := int(e.concretize(e.term(fr, x.Len), "make len"))
@@ -1206,7 +1233,7 @@ func (e *Exec) instr(fr *Frame, ins ssa.Instruction) {
 			rt := e.toIdx64(e.term(fr, x.Reserve), x.Reserve.Type())
 			if !rt.IsConst() && e.Cfg.AllocLimit > 0 {
 				// allocation sized by a symbolic count: must stay within the harness's budget
-				e.check("assert", "alloc:map-size-hint@"+fr.fn.Name(), smt.BvCmp(smt.OBvSle, rt, smt.BVC(64, uint64(e.Cfg.AllocLimit))))
+				e.allocCheck("alloc:map-size-hint@"+fr.fn.Name(), rt)
 			}
 		}
 		fr.vals[x] = &Map{M: &MapObj{}}
